@@ -98,7 +98,7 @@ type modelStats struct {
 	BoundaryCases, FailedFetches, WaitersOfFailed, Timeouts               int
 	HFPBursts, HFPProbes, ReloadHits, ReloadRefetch, FaultsHit            int
 	PurgeDuringFetch, PurgeOfFresh, RequestAfterPurge                     int
-	ExpiredRefetch, MaxOverlap, StaleBoundary, Aborted, AmbiguousResolved, WaiterAgeChecked, MarkerReloads int
+	ExpiredRefetch, MaxOverlap, StaleBoundary, Aborted, AmbiguousResolved, WaiterAgeChecked, MarkerReloads, ParkedAtEnter, EnterOrphaned int
 	WildGens                                                              int
 }
 
@@ -294,6 +294,12 @@ func (m *model) onReq(opIdx int, c *clientRec, snap snapshot) {
 	}
 	g := m.gensOf(c.Cache, c.Key)
 	now := snap.Ms
+	if st == "parked:get.enter" {
+		// the request holds the key's entry and has not looked at it yet: it is judged when it goes on
+		m.roles[c.ID] = &role{kind: "entering", g: g}
+		m.stats.ParkedAtEnter++
+		return
+	}
 	missNow := false
 	// the fault (if any) the store applied to the lookup made for this request
 	// is read from the fault store's own call log (first cache only)
@@ -491,6 +497,20 @@ func (m *model) hfpOf(cacheIdx int) int {
 	return m.hfpD
 }
 
+// orphanParkedRegistered: a request outside the model (it looked the entry up before the entry was
+// dropped or purged) is parked between registering and waiting on this generation's key: the
+// completer is handing over to it
+func (m *model) orphanParkedRegistered(g *gen, snap snapshot) bool {
+	m.w.mu.Lock()
+	defer m.w.mu.Unlock()
+	for _, c := range m.w.clients {
+		if r := m.roles[c.ID]; r != nil && r.kind == "free" && c.Cache == g.cache && c.Key == g.key && snap.State[c.ID] == "parked:get.registered" {
+			return true
+		}
+	}
+	return false
+}
+
 func (m *model) clientByID(id int) *clientRec {
 	m.w.mu.Lock()
 	defer m.w.mu.Unlock()
@@ -631,7 +651,7 @@ func (m *model) onUpstreamEnd(opIdx int, u *upReq, snap snapshot) {
 		m.propagateStored(g)
 		m.wakeWaiters(opIdx, g, snap)
 		// the fetcher itself: finished unless it is handing over to a parked waiter
-		if st != "done" && !(st == "blocked" && len(g.waiters) > 0) {
+		if st != "done" && !(st == "blocked" && (len(g.waiters) > 0 || m.orphanParkedRegistered(g, snap))) {
 			m.viol("C02", "fetcher-not-finished", "op %d: fetching request %d did not finish after its upstream exchange ended (state %s)", opIdx, c.ID, st)
 		}
 		r.serial = u.Serial
@@ -809,6 +829,28 @@ func (m *model) onRelease(opIdx int, c *clientRec, point string, snap snapshot) 
 	}
 	g := r.g
 	st := snap.State[c.ID]
+	if point == "get.enter" {
+		if r.kind != "entering" {
+			return
+		}
+		if cur := m.cur[[2]int{g.cache, g.key}]; cur != g {
+			// the entry it holds was dropped or purged meanwhile: it goes its own way -- and
+			// what it may write to a store under the key is not modelled
+			r.kind = "free"
+			m.stats.EnterOrphaned++
+			if m.sc.Cfg.Store != "" {
+				ng := m.gensOf(g.cache, g.key)
+				if ng.state == "unknown" || ng.state == "hit" || ng.state == "hfp" || ng.state == "amb" {
+					ng.state = "wild"
+				}
+				ng.wasWild = true
+			}
+			return
+		}
+		// the same entry is still the key's entry: the request is an arrival of this moment
+		m.onReq(opIdx, c, snap)
+		return
+	}
 	if point == "get.registered" {
 		if r.kind != "waiter" {
 			return
